@@ -475,6 +475,9 @@ func (h *c25H) roundtrip(s *c25Sess, p []byte, variant int, fp string) {
 	}
 	h.count("roundtrip.ok", 1)
 	r.Nontrivial(fp)
+	if r.WantSample() && len(p)%7 == 3 {
+		r.Sample(map[string]any{"case": "roundtrip", "fingerprint": fp, "plain_len": len(p), "plain_head": verifkit.Hex8(p)})
+	}
 }
 
 // ---------------------------------------------------------------------------
@@ -574,6 +577,9 @@ func (h *c25H) expectReject(pk *c25Packet, alt *frame.SendPacket, kind string, b
 		}
 	}
 	h.count("tamper."+kind, 1)
+	if r.WantSample() && bit%97 == 5 {
+		r.Sample(map[string]any{"case": "tamper", "kind": kind, "bit": bit, "plain_len": len(pk.plain), "outcome": "validation failed (as required)"})
+	}
 	if pk.exhaust {
 		r.Nontrivial(kind + "|" + pk.lenCls + "|" + strconv.Itoa(bit))
 	} else {
@@ -1117,6 +1123,9 @@ func TestVerifC25Concurrent(t *testing.T) {
 						return
 					}
 					r.Nontrivial("conc|" + strconv.Itoa(g) + "|" + strconv.Itoa(n))
+					if r.WantSample() && n%5 == 1 {
+						r.Sample(map[string]any{"case": "concurrent-roundtrip", "goroutine": g, "plain_len": n})
+					}
 				}
 				h.count("concurrent.iterations", iters)
 			}(g)
